@@ -88,6 +88,11 @@ CHECKS.update({
    text="One subscriber sends consecutive updates with pairwise different requested amounts and then a fault-free probe; from the default schedule every placement of up to k deviations (quick: k=1 on three updates and k=2 on two updates; thorough: k=2 / k=3) is executed to completion, where a deviation delays the delivery of an answer beyond the 5 s client time-out at the client connection or at the client's dispatcher, or lets the clock run first. Each execution is checked for cross-talk (grant or reservation not matching the update's own request), requests blocked forever (decided by the scheduler in virtual time) and a failing probe.",
    ref="6 C19", note=TB_E1),
 })
+CHECKS.update({
+ "C09": dict(engine=E1, technique="stateless preemption-bounded schedule exploration (controlled goroutine scheduler) of 2-3 concurrent requests on the real implementation, serializability oracle against the implementation's own serial executions",
+   text="Eleven scenarios (creates for a new / known / different SUPI, updates on the same / different sessions and subscribers, update vs release, update vs recharge, partial-record closures, three-request mixes): after a sequential set-up the requests run in concurrent driver threads; every placement of up to k PARK deviations at shared-state operations is executed to completion, then every acknowledged session is updated and released. No execution may block forever, panic or kill the process, and the final observation must equal that of some serial order of the same requests (reference = the implementation run serially in every permutation).",
+   ref="6 C09", note=TB_E1 + "; unsynchronised plain-memory accesses between two gates are outside the cooperative scheduler's view (see DESIGN.md, race pass)"),
+})
 NA_REASON = "check under construction (see DESIGN.md section 6)"
 
 m = {"version": 1, "setup_cmd": "./setup.sh",
